@@ -30,7 +30,7 @@ def fixture_lines():
     def tup(ln):
         return "<<" + ", ".join('"%s"' % ("q" if c == '"' else "\\t" if c == "\t" else c) for c in ln) + ">>"
     mod = "---- MODULE MC_LexerFix ----\nEXTENDS Lexer\nFixtureLines == {\n  " + ",\n  ".join(tup(l) for l in seen) + "\n}\nFixInit == line \\in FixtureLines\n====\n"
-    cfg = ("CONSTANTS\n  Alphabet = {}\n  MaxLen = 0\n  Dump = TRUE\nINIT FixInit\nNEXT Next\n"
+    cfg = ("CONSTANTS\n  Alphabet = {}\n  MaxLen = 0\n  CC = \"#\"\n  Dump = TRUE\nINIT FixInit\nNEXT Next\n"
            "INVARIANTS GrammarSound NotesNeverEntries MalformedExactly OrphanSilent NameShape PrintFormReadsBack NoteFixpoint DumpInv\nCHECK_DEADLOCK FALSE\n")
     return mod, cfg, len(seen)
 
@@ -45,6 +45,7 @@ def run(ctx):
     if not q:
         ctx.tlc_must_pass("MC_Lexer.tla", "MC_Lexer_thorough7.cfg", workers=14, heap="4g", timeout=1800)
         ctx.tlc_must_pass("MC_Lexer.tla", "MC_Lexer_thorough6d.cfg", dump_path=table, workers=14, heap="4g", timeout=1800)
+    ctx.tlc_must_pass("MC_Lexer.tla", "MC_Lexer_zero.cfg", dump_path=table, workers=8, timeout=900)
     # long lines: random walks of the same state machine (TLC -simulate), every prefix classified by Lex and replayed
     ctx.tlc("MC_Lexer.tla", "MC_Lexer_sim.cfg", dump_path=table, workers=1, simulate="num=%d" % (300 if q else 3000), depth=33,
             extra=["-seed", str(ctx.seed)], timeout=1800, label="simulation: random lines of up to 32 characters")
@@ -57,6 +58,11 @@ def run(ctx):
     ctx.cov["fixture_lines_classified"] = fx[2]
     mm = os.path.join(ctx.scratch, "lexer_mm.ndjson")
     res = ctx.drv("lexer-replay", infile=table, outfile=mm)
+    # a configured comment character (parser.Config.CommentChar, [ParserConfig] CommentChar of the configuration file)
+    table_cc = os.path.join(ctx.scratch, "lexer_table_cc.ndjson")
+    ctx.tlc_must_pass("MC_Lexer.tla", "MC_Lexer_cc.cfg", dump_path=table_cc, workers=8, timeout=900)
+    res_cc = ctx.drv("lexer-replay", infile=table_cc, outfile=os.path.join(ctx.scratch, "lexer_cc_mm.ndjson"), args={"cc": ";"})
+    ctx.add("evaluations", res_cc["runs"])
     ctx.add("evaluations", res["runs"])
     ctx.add("distinct_nontrivial", res["nontrivial"])
     ctx.add("traces_validated_against_impl", res["cases"])
